@@ -26,12 +26,12 @@ ASSUMPTIONS = ["following the server's smaller block size in later Block1 reques
                "a non-block answer in the middle of a Block2 transfer may be accepted as the complete representation"]
 EXPECTED_PROBES = ["block1_multi", "block2_multi", "szx_reduced_block1", "szx_reduced_block2", "misbehave_b1_wrong_num",
                    "misbehave_b1_more_on_final", "misbehave_b2_short", "misbehave_b2_skip", "misbehave_b2_etag_change",
-                   "retransmitted_block", "unfragmented_1124"]
+                   "misbehave_b2_etag_presence_change", "retransmitted_block", "unfragmented_1124"]
 
 LENGTHS = [0, 1, 15, 16, 17, 31, 32, 33, 63, 64, 65, 127, 128, 129, 511, 512, 513, 1023, 1024, 1025, 1124, 1125,
            2047, 2048, 2049, 3000, 5000]
 MISBEHAVE = ["b1_wrong_num", "b1_more_on_final", "b1_231_on_final", "b2_short", "b2_skip", "b2_etag_change",
-             "b2_first_num_wrong", "b2_nonblock_mid"]
+             "b2_first_num_wrong", "b2_nonblock_mid", "b2_etag_dropped", "b2_etag_appears"]
 METHODS = {"GET": rc.GET, "PUT": rc.PUT, "POST": rc.POST, "FETCH": rc.FETCH}
 
 
@@ -290,6 +290,20 @@ class RefServer7959(ScriptedEndpoint):
             etag = b"E%05d" % rid
             st["misbehaved"] = True
             self.sim.probe("misbehave_b2_etag_change")
+        etag_here = spec["etag"] or mb == "b2_etag_change"
+        if mb in ("b2_etag_dropped", "b2_etag_appears"):
+            # the representation is replaced by one that is served without / with an ETag where the first block had
+            # one / none: "ETag differs" in its absent-versus-present form
+            etag_here = (mb == "b2_etag_dropped")
+            if st.get("etag_switched") or (k == max(1, spec["at"]) and start > 0):
+                if not st.get("etag_switched"):
+                    rid, full = self.new_repr(st, tid)
+                    st["etag_switched"] = (rid, full)
+                    st["misbehaved"] = True
+                    self.sim.probe("misbehave_b2_etag_presence_change")
+                rid, full = st["etag_switched"]
+                etag = b"E%05d" % rid
+                etag_here = not etag_here
         if mb == "b2_nonblock_mid" and k == max(1, spec["at"]) and start > 0:
             # a complete (small) representation without Block2 option in the middle of the transfer
             st["nonblock"] = b"NONBLOCK-COMPLETE-%05d" % rid
@@ -304,7 +318,7 @@ class RefServer7959(ScriptedEndpoint):
             chunk = chunk[:-1]
             st["misbehaved"] = True
             self.sim.probe("misbehave_b2_short")
-        if spec["etag"] or mb == "b2_etag_change":
+        if etag_here:
             opts.append((rc.ETAG, etag))
         opts.append((rc.BLOCK2, rc.block_bytes(snum, more, szx)))
         return {"code": code, "options": opts, "payload": chunk}
